@@ -3,7 +3,7 @@
     answering part of its peer, the network; every goroutine, the user, the peer and the network are
     schedulable actions).  [reach s]: s is reached from an initial state by ANY sequence of actions
     (any cfg, also the pre-fix purge); [reach_fixed s]: the same for the repaired code. *)
-From SioV Require Import Base.GoSem Base.Conc Sio.Ack Sio.AckProofs.
+From SioV Require Import Base.GoSem Base.Conc Sio.Ack Sio.AckProofs Sio.AckQueue Sio.AckQueueProofs.
 
 (** Whatever the schedule, however many ACK packets arrive for an id (duplicates, unsolicited ones,
     from a compliant peer or not), timer or no timer: the callback registered for an ack id has run
@@ -88,3 +88,49 @@ Proof. vm_compute. auto. Qed.
     packet's frames the loop leaves an attachment frame of the timed-out packet in the buffer. *)
 Example C03_prefix_purge_panics : purge_old 0 (frames_of (Some 0) 0 1) = Panic.
 Proof. exact purge_old_panics. Qed.
+
+(** ** the retry queue (ClientSocketConfig.Retries > 0; model Sio/AckQueue.v).
+    The user's callback is called by replacementAck, not through the handler guard; every attempt is
+    an Emit whose own handler fires at most once ([C03_at_most_once]) = one [QOutcome].
+    [qreach]: all schedules of concurrent emitters, outcomes, replacementAck goroutines, connects and
+    reconnect drains; [qreach_nf]: the same without a reconnect drain (drainQueue(true)) hitting a
+    head that is still waiting for its acknowledgement (finding class retry-queue-forced-drain). *)
+
+(** The full statement is false for the code as it is: the schedule [known_sched] (replayed on the real
+    client by the `queue` suite) runs the callback of packet 0 twice ... *)
+Theorem C03_queue_at_most_once_refuted : exists s, qreach s /\ length (q_outcomes s 0) = 2.
+Proof. exact queue_at_most_once_refuted. Qed.
+
+(** ... and, in the same run, the callback of the packet queued behind it never runs and its
+    replacementAck goroutine panics on the empty queue. *)
+Example C03_queue_known_finding :
+  let s := qrun known_sched (q_init 1 true) in
+  q_outcomes s 0 = [OTimeout; OReply [42%N]] /\ q_outcomes s 1 = [] /\ In RAPanicked (qs_threads s).
+Proof. exact known_finding_in_model. Qed.
+
+(** Outside that class: at most once per user callback, for every schedule. *)
+Theorem C03_queue_at_most_once_partial : forall s p, qreach_nf s -> length (q_outcomes s p) <= 1.
+Proof. exact queue_at_most_once. Qed.
+
+(** The head stays pending until it has been shifted: as long as an attempt of [p] can still deliver
+    or a replacementAck goroutine of [p] has not shifted the queue yet (or is on its retry path), [p]
+    is the head of the queue, is marked pending (so no drainQueue(false) of any emitter re-sends
+    it), has not been called, and has exactly one holder. *)
+Theorem C03_queue_head_pending_until_shifted : forall s p,
+  qreach_nf s ->
+  (exists a t, nth_error (qs_attempts s) a = Some (p, t, true))
+  \/ (exists k r, nth_error (qs_threads s) k = Some r /\ isPreT p r = true) ->
+  hd_error (qs_queue s) = Some p /\ q_pending_of s p = true /\ q_outcomes s p = [] /\ pre s p = 1.
+Proof. exact head_pending_until_shifted. Qed.
+
+(** The blind `queuedPackets[1:]` never runs on an empty queue (no goroutine is lost, so no callback
+    is silently skipped). *)
+Theorem C03_queue_shift_never_panics : forall s,
+  qreach_nf s -> forall r, In r (qs_threads s) -> r <> RAPanicked.
+Proof. exact shift_never_panics. Qed.
+
+(** The side condition is satisfiable with reconnect drains in the run (a drain that finds the head
+    not pending is inside the class that is proved). *)
+Example C03_queue_partial_nonvacuous :
+  exists s', qstep_nf QForceDrain (qrun [QAdd] (q_init 1 true)) = Some s' /\ qs_attempts s' = [(0, 1, true)].
+Proof. eexists. split; vm_compute; reflexivity. Qed.
